@@ -249,6 +249,7 @@ def run_checks(d, c, ids, tier="quick", par="4"):
         e = dict(os.environ)
         e["VERIF_REPO"] = d
         e["VERIF_PAR"] = par
+        e["VERIF_SKIP_SELFTEST"] = "1"
         t0 = time.time()
         try:
             r = subprocess.run([os.path.join(VERIF, "check"), pid, "--tier", tier], env=e, capture_output=True, text=True, errors="replace", timeout=3600)
